@@ -160,8 +160,12 @@ def _record(args):
         els = [i + 1 for i, kk in enumerate(d['kind']) if kk == 'e']
         for j in range(nsel):
             ast = gen.rand_list(rng, depth=rng.choice([0, 1, 2]), names=names)
-            if rng.random() < 0.5:   # make :scope observable
-                ast[0]['cs'][rng.randrange(len(ast[0]['cs']))].append({'k': rng.choice(['scope', 'amp'])})
+            if rng.random() < 0.5:   # make :scope observable (at any position of the compound: before or after the other flags)
+                comp = ast[0]['cs'][rng.randrange(len(ast[0]['cs']))]
+                lo = 1 if comp and comp[0]['k'] == 'type' else 0
+                comp.insert(rng.randint(lo, len(comp)), {'k': rng.choice(['scope', 'amp'])})
+                if rng.random() < 0.3:
+                    comp.insert(rng.randint(lo, len(comp)), {'k': rng.choice(['root', 'empty'])})
             css = selmod.selector_list(ast)
             obj = sv.compile(css)
             for en, ep in enumerate(('select', 'iselect', 'select_one', 'match', 'filter', 'filter_iter', 'closest') + (('closest',) * 4 if k % 2 else ())):
